@@ -60,3 +60,12 @@ Theorem C08_code_load_uint64 : forall b0 b1 b2 b3 b4 b5 b6 b7,
   g_cbor_load_uint64 (srcf [b0; b1; b2; b3; b4; b5; b6; b7]) = Z.of_N (be_val [b0; b1; b2; b3; b4; b5; b6; b7]).
 Proof. exact bridge_load_uint64. Qed.
 Print Assumptions C08_code_claim_bytes.
+
+(* "keeps no state between calls": no variable with static storage duration in the files of the streaming
+   decoder, the loaders, the encoders, the UTF-8 counter and the size guards is mutable or ever assigned
+   (inventory regenerated from the AST of this run; theories/Bridge_inventory.v) *)
+From CB Require Import Bridge_inventory.
+From CBGen Require Import Gen_inventory.
+Theorem C08_no_static_state : forallb stateless_ok gen_globals = true.
+Proof. exact bridge_stateless_files. Qed.
+Print Assumptions C08_no_static_state.
